@@ -19,6 +19,7 @@ import (
 	"net"
 	"net/http"
 	"os"
+	"runtime"
 	"strings"
 	"sync"
 	"syscall"
@@ -382,6 +383,7 @@ func appProxyCases(c *drv.Ctx) {
 
 func init() {
 	drv.Register("c10many", verifAppMany)
+	drv.Register("c10conc", verifAppConc)
 }
 
 func appOpenFDs() int {
@@ -396,6 +398,143 @@ func appOpenFDs() int {
 // many came before it. One listener serves all of 127.0.0.0/8; the soft RLIMIT_NOFILE is lowered to
 // 64 above what the process has open, so a scanner that keeps a connection (or anything else) per
 // probed host runs dry after a few dozen hosts instead of after tens of thousands.
+// verifAppConc: several workers of one scanner probe different live services at the same time; every
+// record describes the service of ITS OWN target. Four listeners with distinct identities, 1000
+// probes, 16 workers, through the command's own engine. Free-running real goroutines: a sampling
+// pass in the sense of DESIGN.md 2.8 (it adds alarms for state shared between concurrent probes).
+const appConcProbes = 4000
+
+func verifAppConc(c *drv.Ctx) {
+	c.R.Rule = "elastic and docker, http: four live services with distinct identities (cluster name / daemon name, version) on four loopback ports are probed 1000 times each, interleaved, by 16 workers of ONE scanner built by the command's options; every record must carry the identity served by the address it names. Free-running (sampling): auxiliary. non-trivial = scanner"
+	// the workers have to run truly in parallel (./check gives every shard process a slice of the cores)
+	if runtime.GOMAXPROCS(0) < 8 {
+		defer runtime.GOMAXPROCS(runtime.GOMAXPROCS(8))
+	}
+	for _, which := range []string{"elastic", "docker"} {
+		const nsrv = 4
+		ports := make([]int, nsrv)
+		var stops []func()
+		for k := 0; k < nsrv; k++ {
+			k := k
+			addr, stop := appServer(func(conn net.Conn) {
+				defer conn.Close()
+				br := bufio.NewReader(conn)
+				for {
+					req, err := http.ReadRequest(br)
+					if err != nil {
+						return
+					}
+					body := fmt.Sprintf(`{"cluster_name":"srv-%d","Name":"srv-%d","ID":"id-%d","Version":"1.0.%d","version":{"number":"7.0.%d"}}`, k, k, k, k, k)
+					if strings.Contains(req.URL.Path, "_aliases") {
+						body = fmt.Sprintf(`{"idx-%d":{"aliases":{}}}`, k)
+					}
+					fmt.Fprintf(conn, "HTTP/1.1 200 OK\r\nContent-Type: application/json\r\nApi-Version: 1.41\r\nContent-Length: %d\r\n\r\n%s", len(body), body)
+					if req.Close {
+						return
+					}
+				}
+			})
+			ports[k] = addr.Port
+			stops = append(stops, stop)
+		}
+		var list strings.Builder
+		for i := 0; i < appConcProbes; i++ {
+			fmt.Fprintf(&list, "{\"ip\":\"127.0.0.1\",\"port\":%d}\n", ports[i%nsrv])
+		}
+		tf, _ := os.CreateTemp("", "verif-c10conc-*.jsonl")
+		tf.WriteString(list.String())
+		tf.Close()
+		args := []string{"-t", "5s", "--exit-delay", "10ms", "-w", "16", "-f", tf.Name()}
+		ctx, cancel := context.WithCancel(context.Background())
+		var engine scan.EngineResulter
+		var r *scan.Range
+		var err error
+		switch which {
+		case "elastic":
+			cm := newElasticCmd()
+			cm.cmd.SetOut(io.Discard)
+			cm.cmd.SetErr(io.Discard)
+			if err = cm.cmd.ParseFlags(args); err == nil {
+				if err = cm.opts.parseRawOptions(); err == nil {
+					if r, err = cm.opts.parseScanRange(cm.cmd.Flags().Args()); err == nil {
+						engine = cm.opts.newElasticScanEngine(ctx)
+					}
+				}
+			}
+		case "docker":
+			cm := newDockerCmd()
+			cm.cmd.SetOut(io.Discard)
+			cm.cmd.SetErr(io.Discard)
+			if err = cm.cmd.ParseFlags(args); err == nil {
+				if err = cm.opts.parseRawOptions(); err == nil {
+					if r, err = cm.opts.parseScanRange(cm.cmd.Flags().Args()); err == nil {
+						engine = cm.opts.newDockerScanEngine(ctx)
+					}
+				}
+			}
+		}
+		if err != nil || engine == nil {
+			c.Infra("%s: options refused: %v", which, err)
+			cancel()
+			os.Remove(tf.Name())
+			for _, st := range stops {
+				st()
+			}
+			continue
+		}
+		lg := &appCapLogger{}
+		done := make(chan struct{})
+		go func() {
+			startScanEngine(ctx, engine, newEngineConfig(withLogger(lg), withScanRange(r), withExitDelay(10*time.Millisecond)))
+			close(done)
+		}()
+		select {
+		case <-done:
+		case <-time.After(90 * time.Second):
+			cancel()
+			<-done
+		}
+		cancel()
+		os.Remove(tf.Name())
+		for _, st := range stops {
+			st()
+		}
+		lg.mu.Lock()
+		results, errs := append([]string(nil), lg.results...), append([]string(nil), lg.errs...)
+		lg.mu.Unlock()
+		c.Eval(len(results))
+		c.Nontrivial(1)
+		bad := ""
+		for _, line := range results {
+			for k := 0; k < nsrv; k++ {
+				names := fmt.Sprintf(":%d\"", ports[k])
+				if !strings.Contains(line, names) && !strings.Contains(line, fmt.Sprintf(":%d,", ports[k])) && !strings.Contains(line, fmt.Sprintf("\"port\":%d", ports[k])) {
+					continue
+				}
+				// this record names service k: everything it says must be service k's
+				for j := 0; j < nsrv; j++ {
+					if j != k && (strings.Contains(line, fmt.Sprintf("srv-%d", j)) || strings.Contains(line, fmt.Sprintf("idx-%d", j)) || strings.Contains(line, fmt.Sprintf("id-%d", j))) {
+						bad = fmt.Sprintf("the record for port %d (service srv-%d) carries data of service srv-%d: %.300s", ports[k], k, j, line)
+					}
+				}
+			}
+		}
+		switch {
+		case bad != "":
+			c.Fail("appconc:"+which+":foreign-data", fmt.Sprintf("%s, 16 workers x 4 live services: %s", which, bad), map[string]any{"part": "c10conc", "scanner": which})
+		case len(results) != appConcProbes:
+			first := ""
+			if len(errs) > 0 {
+				first = errs[0]
+			}
+			c.Fail("appconc:"+which+":lost", fmt.Sprintf("%s, 16 workers x 4 live services: every probe of an answering service must give a record; got %d records (%d errors, first %q)", which, len(results), len(errs), first), map[string]any{"part": "c10conc", "scanner": which})
+		default:
+			c.Outcome(which + ":all-own")
+			c.Sample(map[string]any{"scanner": which, "probes": appConcProbes, "workers": 16, "services": nsrv})
+		}
+	}
+}
+
 func verifAppMany(c *drv.Ctx) {
 	c.R.Rule = "elastic (GET / and /_aliases answered with JSON objects) and docker (/_ping, /info, /version answered), http: 300 distinct loopback addresses served by one listener are probed one after the other through ONE scanner built by the command's options, with the soft RLIMIT_NOFILE lowered to 64 above the descriptors in use; every address must be reported. non-trivial = scanner"
 	var lim syscall.Rlimit
